@@ -188,9 +188,9 @@ pub fn listing(source_contents: &str, source_range: SourceRange) -> String {
                         } else {
                             "\u{250a}"
                         },
-                        " ".repeat(*section_start),
+                        " ".repeat(line[..*section_start].chars().count()),
                         // [tag:overline_u203e]
-                        "\u{203e}".repeat(section_end - section_start),
+                        "\u{203e}".repeat(line[*section_start..*section_end].chars().count()),
                     )
                 },
             )
